@@ -24,6 +24,7 @@ pub mod chan;
 pub mod deliver;
 pub mod life;
 pub mod storage;
+pub mod stream;
 pub mod units;
 pub mod wav;
 
@@ -60,6 +61,8 @@ pub fn gen(suite: &str, rng: &mut Rng, n: usize, thorough: bool, stats: &mut Sta
 		"deliver" => deliver::gen(rng, n, thorough, stats),
 		"life" => life::gen(rng, n, thorough, stats),
 		"storage" => storage::gen(rng, n, thorough, stats),
+		"stream" => stream::gen(rng, n, thorough, stats),
+		"decthread" => stream::gen_decthread(rng, n, thorough, stats),
 		_ => panic!("unknown suite {}", suite),
 	}
 }
@@ -91,6 +94,7 @@ pub fn run(suite: &str, ops: &[String]) -> Vec<String> {
 		"deliver" => deliver::run(ops),
 		"life" => life::run(ops),
 		"storage" => storage::run(ops),
+		"stream" | "decthread" => stream::run(ops),
 		_ => panic!("unknown suite {}", suite),
 	}
 }
